@@ -13,6 +13,9 @@ CONSTANTS
 VARIABLES ops, sched, cfgv
 mcvars == <<vars, ops, sched, cfgv>>
 View == <<svars, init0, hist, ops, IF GenMode /\ GenFail THEN Len(sched) ELSE 0>>
+\* transition cover: one BFS path per distinct (state, call that led to it), so that calls which lead to an
+\* already known state (no-op calls, self-transfers, alternative ways into a state) get a schedule too
+ViewEv == <<View, ev>>
 
 Admins == {"ad", "ad2"}
 HookAddrs == {"h1", "h2"}
